@@ -5,6 +5,7 @@ Expr (both evaluator parsers), rendered error traces, syntax-error locations and
 events for programs with a construct planted at a known (line, column).
 """
 import json
+import os
 import re
 
 from .. import runner, tokseq, fmtlib
@@ -261,7 +262,55 @@ def two_file_case(acc, w, rng, root, seq):
         acc.inc("two_file_frames_missing")
 
 
-def shard(idx, n, tier, seed, binary):
+def cli_trace_cases(acc, cli, rng, root, count):
+    """the executable's own reporting: `TRACE: file:line message` lines (the library's trace printer, which the worker
+    replaces by its collector) and the location in the rendered error, for one- and two-file programs whose std.trace
+    calls sit at the *same byte offsets* on different lines"""
+    import subprocess
+    pads = ["", "// é漢😀 comment", "/* c */", "local unused = 'ü';", "    ", "# x"]
+    for k in range(count):
+        d = os.path.join(root, "cli%d" % k)
+        os.makedirs(d, exist_ok=True)
+        eol = rng.choice(["\n", "\n", "\r\n"])
+        # two prefixes of equal byte length with different numbers of lines
+        la, lb = rng.sample(range(1, 9), 2)
+        lines_a = [rng.choice(pads) for _ in range(la)]
+        lines_b = [rng.choice(pads) for _ in range(lb)]
+        pa = "".join(x + eol for x in lines_a)
+        pb = "".join(x + eol for x in lines_b)
+        na, nb = len(pa.encode()), len(pb.encode())
+        if na < nb:
+            pa += " " * (nb - na)
+        else:
+            pb += " " * (na - nb)
+        helper = pb + "std.trace('H', 1)" + eol
+        main = pa + "std.trace('M', 1) + (import 'helper.libsonnet') + std.trace('M2', 1) + error 'E'" + eol
+        with open(os.path.join(d, "helper.libsonnet"), "w", newline="") as f:
+            f.write(helper)
+        with open(os.path.join(d, "main.jsonnet"), "w", newline="") as f:
+            f.write(main)
+        acc.inc("evaluations")
+        acc.inc("cli_trace_runs")
+        p = subprocess.run([cli["jrsonnet"], "main.jsonnet"], cwd=d, capture_output=True, text=True, timeout=60)
+        want = [("main.jsonnet", la + 1, "M"), ("helper.libsonnet", lb + 1, "H"), ("main.jsonnet", la + 1, "M2")]
+        got = re.findall(r"^TRACE: (\S+?):(\d+) (\S+)$", p.stderr, re.M)
+        got = [(os.path.basename(a), int(b), c) for a, b, c in got]
+        wit = {"main": main, "helper": helper, "stderr": p.stderr[-1500:], "expected_traces": want, "observed_traces": got}
+        if p.returncode < 0 or "panicked" in p.stderr:
+            acc.violation({"oracle": "crash", "where": "cli-trace"}, wit)
+            continue
+        if got != want:
+            acc.violation({"oracle": "position", "what": "TRACE-line-of-executable", "construct": "two-file-trace"}, wit)
+            continue
+        m = re.search(r"main\.jsonnet:(\d+):", p.stderr)
+        if m is None or int(m.group(1)) != la + 1:
+            acc.violation({"oracle": "position", "what": "error-line-of-executable", "construct": "two-file-trace"}, wit)
+            continue
+        acc.inc("cli_trace_ok")
+        acc.distinct("clitrace:%d:%d:%s" % (la, lb, eol))
+
+
+def shard(idx, n, tier, seed, binary, cli=None):
     acc = runner.Acc()
     rng = runner.rng_for(seed, "c17", idx)
     w = runner.Worker(binary, timeout=120)
@@ -314,6 +363,8 @@ def shard(idx, n, tier, seed, binary):
         try:
             for k in range((400 if tier == "quick" else 6000) // n):
                 two_file_case(acc, w, rng, root, k)
+            if cli:
+                cli_trace_cases(acc, cli, rng, root, (320 if tier == "quick" else 3200) // n)
         finally:
             shutil.rmtree(root, ignore_errors=True)
         if idx == 0:
@@ -325,7 +376,8 @@ def shard(idx, n, tier, seed, binary):
 
 def run(tier, seed, t0):
     bins = runner.build("rel")
-    accs = runner.shard_map(shard, (tier, seed, bins["jv-worker"]))
+    cli = runner.build_cli()
+    accs = runner.shard_map(shard, (tier, seed, bins["jv-worker"], cli))
     acc = runner.Acc()
     for a in accs:
         acc.merge(a)
@@ -335,7 +387,8 @@ def run(tier, seed, t0):
              "hostile raw texts (valid or not); spans: corpus programs, comment-decorated and CRLF/non-ASCII "
              "prefixed variants through both evaluator parsers; positions: programs with an error, assert, "
              "undefined variable, missing field, std.trace or stray token planted at a known line/column "
-             "behind random ASCII / multi-byte / CRLF padding. distinct_nontrivial = distinct texts whose "
+             "behind random ASCII / multi-byte / CRLF padding; the executable's own `TRACE:` lines and error location for "
+             "two-file programs whose std.trace calls sit at the same byte offsets on different lines. distinct_nontrivial = distinct texts whose "
              "tokens tiled the input and whose tree reproduced it, plus distinct planted programs reported "
              "at the right place",
         assumptions=["the first location of the rendered trace is the innermost frame = the offending construct",
